@@ -50,8 +50,9 @@ def run(c):
         c.cov["generated_types"] = stats
         for k, v, _ in panics[:2]: c.sample({"request": k, "impl": v})
         if not panics: c.sample({"request": sel[0][0], "impl": sel[0][1][:200]})
+    c.cov["partial_obligations"] = ["totality of lift, dealloc/deallocIndirect, call (incl. the final empty-stack assertion) and post_return on supported inputs: no theorem; model-vs-code panic correspondence + search on every entry point"]
     c.cov["search"] = "every abi entry point under catch_unwind on seeded worlds; backend half: every generator under catch_unwind"
-    c.assumptions += ["what counts as 'used by backends' for Generator::call is the set of (variant, direction, async) combinations found at the abi::call call sites of crates/*/src"]
+    c.assumptions += ["what counts as 'used by backends' for Generator::call is the set of (variant, direction, async) combinations read off the 13 abi::call call sites of crates/*/src (abi_common.USED_CALLS: import-lower-sync, export-lift-sync, GuestExportAsync-lift-async, C#'s GuestExport-lift-async); hand-maintained, not extracted"]
     bp = os.path.join(os.path.dirname(__file__), "c16_backends.py")
     if os.path.exists(bp):
         spec = importlib.util.spec_from_file_location("c16_backends", bp)
